@@ -18,10 +18,15 @@ def build_driver():
     return rc == 0, out
 
 
-NFLAGS = 5
-FLAG_NAMES = ("maskedAccessThrows", "convertDense", "sliceEmptyBackward", "ifelseConstRead", "maskOnMaskedHonoured")
+NFLAGS = 7
+FLAG_NAMES = ("maskedAccessThrows", "convertDense", "sliceEmptyBackward", "ifelseConstRead", "maskOnMaskedHonoured",
+              "componentKeepsMask", "sizeHelperOverloads")
 AS_WRITTEN = (0,) * NFLAGS
-CURRENT = (1, 1, 1, 1, 0)          # Cfg.current of Model/FixedArray.lean: what the primary theorems are stated for
+# Cfg.current of Model/FixedArray.lean (first five flags) + `compView true` (component arrays keep the mask): what the
+# primary theorems are stated for
+CURRENT = (1, 1, 1, 1, 0, 1, 1)
+COMP_KEY = "c19_harness:ArrayComponent_get:masked-reference"
+VSIZE_KEY = "c19_harness:FixedVArray.SizeHelper.__getitem__:overload-order"
 
 
 def cfg_args(cfg):
@@ -189,6 +194,20 @@ def classify(prog, k, spec_line, real_line):
     op = t[0]
     if op in ("d2", "m"):
         return "spec:%s-%s" % (op, t[1])
+    if op == "v":
+        if t[1] in ("size", "sizemask"):
+            return VSIZE_KEY
+        if t[1] in ("setrowmask", "setsizemask") and "ok" in real_line.split(";")[0]:
+            # the documented quirk of `*_scalar_mask` on a masked reference (the mask is not looked at), duplicated in
+            # FixedVArray::setitem_scalar_mask and SizeHelper::setitem_scalar_mask
+            return "setitem-scalar-mask-on-masked-ref-ignores-mask"
+        return "spec:v-%s" % t[1]
+    # a deviation on / after taking the component array OF A MASKED REFERENCE (any other component deviation, e.g. a
+    # write through the component array of a read-only dense array, keeps its own `spec:` key)
+    for j in range(k + 1):
+        tj = prog[j].split()
+        if tj and tj[0] == "comp" and view_kind(prog, j, tj[1]).startswith("masked"):
+            return COMP_KEY
     vk = view_kind(prog, k, t[1]) if len(t) > 1 else ""
     if op in ("iadds", "iaddv") and vk == "masked-readonly":
         return "masked-inplace-on-readonly"
@@ -206,7 +225,7 @@ def classify(prog, k, spec_line, real_line):
 # ----------------------------------------------------------------------------------------------
 # shrinking
 
-CREATORS = ("alloc", "alloci", "getslice", "getmask", "copy", "convert", "ifelses", "ifelsev")
+CREATORS = ("alloc", "alloci", "allocc", "allocw", "comp", "getslice", "getmask", "copy", "convert", "ifelses", "ifelsev")
 
 
 def renumber_without(prog, k, model_lines):
@@ -241,7 +260,7 @@ def renumber_without(prog, k, model_lines):
 
 def ref_positions(t):
     op = t[0]
-    return {"len": [1], "getitem": [1], "getslice": [1], "getmask": [1, 2], "copy": [1], "convert": [1],
+    return {"comp": [1], "len": [1], "getitem": [1], "getslice": [1], "getmask": [1, 2], "copy": [1], "convert": [1],
             "setscalar": [1], "setscalarmask": [1, 2], "setvector": [1, 3], "setvectormask": [1, 2, 3],
             "ifelses": [1, 2], "ifelsev": [1, 2, 3], "ro": [1], "iadds": [1], "iaddv": [1, 2]}.get(op, [])
 
